@@ -142,7 +142,7 @@ func argmax(cells []byte) []byte {
 }
 
 // argmaxLoose adds, for inputs with lower case letters (case handling is not specified), the
-// winners of a case-insensitive count in both cases.
+// winners of a case-insensitive count in the spellings that occur in the column.
 func argmaxLoose(cells []byte, mixedCase bool) []byte {
 	out := argmax(cells)
 	if !mixedCase {
@@ -156,9 +156,15 @@ func argmaxLoose(cells []byte, mixedCase bool) []byte {
 	for _, b := range out {
 		seen[b] = true
 	}
+	present := map[byte]bool{}
+	for _, b := range cells {
+		present[b] = true
+	}
 	for _, b := range argmax(f) {
 		for _, v := range []byte{b, lower(b)} {
-			if !seen[v] {
+			// ... as long as that spelling occurs in the column: "the column's most frequent character" is at
+			// least a character of the column (C15-m10 wrote 'A' into a column a,a,a,t)
+			if !seen[v] && present[v] {
 				seen[v] = true
 				out = append(out, v)
 			}
